@@ -238,6 +238,13 @@ func init() {
 				if len(vals) == 1 {
 					a = vals[0]
 				}
+				// an argument joined with the zero value a helper returns next to its error: the value on the
+				// paths that reach the record
+				if strings.HasPrefix(a, "phi(") {
+					if vs := e.ValStrs(fn, e.ValsAt((&Walk{Fn: fn}).FromEntry(), lg, lg.Common().Args[i-1])); len(vs) == 1 {
+						a = stripCtx(vs[0])
+					}
+				}
 			}
 			as = append(as, a)
 		}
@@ -368,26 +375,34 @@ func init() {
 		o.Require(len(rets) == 1, "statekey", "stateKey must be a single expression", nil)
 		v := e.X(sk, rets[0].Results[0])
 		o.Site(rets[0], "stateKey = "+v)
-		o.Check(strings.Contains(v, "p0") && strings.Contains(v, "am/nflog.receiverKey(p1)"), "statekey-parts", "the state key must combine the group key and the receiver key, is "+v, rets[0])
-		rk := o.Fn("am/nflog.receiverKey")
-		rr := (&Walk{Fn: rk}).FromEntry().Returns()
-		if o.Check(len(rr) == 1, "receiverkey", "receiverKey must be a single expression", nil) {
-			var parts []string
-			for s := range e.Sources(rr[0].Results[0], true) {
-				x := e.X(rk, s)
-				if strings.HasPrefix(x, "p0.") && !strings.Contains(x, "(") {
-					parts = append(parts, x)
+		fieldsOf := func(f *ssa.Function, ret *ssa.Return, prefix string) map[string]bool {
+			out := map[string]bool{}
+			for sv := range e.Sources(ret.Results[0], true) {
+				x := e.X(f, sv)
+				if (x == prefix || strings.HasPrefix(x, prefix+".")) && !strings.Contains(x, "(") {
+					out[x] = true
 				}
 			}
-			for _, f := range []string{"p0.GroupName", "p0.Integration", "p0.Idx"} {
-				found := false
-				for _, p := range parts {
-					if p == f {
-						found = true
-					}
+			return out
+		}
+		if rk := o.FnOpt("am/nflog.receiverKey"); rk != nil && len(e.Calls(sk, "am/nflog.receiverKey")) > 0 {
+			o.Check(strings.Contains(v, "p0") && strings.Contains(v, "am/nflog.receiverKey(p1)"), "statekey-parts", "the state key must combine the group key and the receiver key, is "+v, rets[0])
+			rr := (&Walk{Fn: rk}).FromEntry().Returns()
+			if o.Check(len(rr) == 1, "receiverkey", "receiverKey must be a single expression", nil) {
+				parts := fieldsOf(rk, rr[0], "p0")
+				for _, f := range []string{"p0.GroupName", "p0.Integration", "p0.Idx"} {
+					o.Check(parts[f], "receiverkey-part|"+f, "the receiver key no longer includes "+f+": two integrations of a receiver could share a log entry", rr[0])
 				}
-				o.Check(found, "receiverkey-part|"+f, "the receiver key no longer includes "+f+": two integrations of a receiver could share a log entry", rr[0])
 			}
+		} else {
+			// the receiver's part written out in the state key itself
+			parts := fieldsOf(sk, rets[0], "p1")
+			o.Check(fieldsOf(sk, rets[0], "p0")["p0"], "statekey-parts", "the state key must include the group key, is "+clip(v), rets[0])
+			for _, f := range []string{"p1.GroupName", "p1.Integration", "p1.Idx"} {
+				o.Check(parts[f], "receiverkey-part|"+strings.Replace(f, "p1.", "p0.", 1), "the state key no longer includes the receiver's "+f[3:]+": two integrations of a receiver could share a log entry", rets[0])
+			}
+			// the pieces are kept apart: a separator stands between any two of them
+			o.Check(strings.Count(v, `"/"`)+strings.Count(v, `"%s`) >= 1 && (strings.Contains(v, `":"`) || strings.Contains(v, `%s:`)), "statekey-parts", "the pieces of the state key are not separated, is "+clip(v), rets[0])
 		}
 		// Query
 		var qf *ssa.Function
